@@ -1,7 +1,7 @@
 SPECIFICATION Spec
 CONSTANTS
   Codes <- CodesThorough
-  MaxLen = 6
+  MaxLen = 5
   Settings <- SettingsThorough
   TexDevs <- NoDevs
   Bug = ""
